@@ -21,7 +21,7 @@ def ident(unit, name):
     return re.sub(r'\W', '_', os.path.basename(unit)[:-2] + '_' + name)
 
 
-def instrument(bld, units, header_path, tag):
+def instrument(bld, units, header_path, tag, extra=()):
     """returns (overrides: unit -> gb, listed statics)"""
     decl, snap, chk, hav = [], [], [], []
     listed = []
@@ -67,7 +67,7 @@ def instrument(bld, units, header_path, tag):
                 app.append('void __vf_c18_havoc_%s(void) { __CPROVER_havoc_object(&%s); }' % (i, n))
                 decl.append('void __vf_c18_havoc_%s(void);' % i)
                 hav.append('__vf_c18_havoc_%s();' % i)
-        overrides[u] = bld.goto_unit(u, probes=tuple(probes), suffix='c18' + tag, append='\n'.join(app) + '\n')
+        overrides[u] = bld.goto_unit(u, extra=list(extra), probes=tuple(probes), suffix='c18' + tag, append='\n'.join(app) + '\n')
     with open(header_path, 'w') as f:
         f.write('/* generated on every run from the goto symbol tables of: %s */\n' % ', '.join(units))
         f.write('\n'.join(decl) + '\n')
